@@ -16,6 +16,9 @@ CONF = {
         # quota part: QuotaAccounting + Restart action; the fresh manager is fed the persisted objects only
         {"pkg": "pkg/scheduler/plugins/elasticquota/core", "test": "TestVerifC19Quota", "family": "Quota", "uses_script": False,
          "trace": {"module": "QuotaAccountingTrace", "cfg": "Trace_C01.cfg"}},
+        # CPU / NUMA part: NumaCpu + Restart action; persistence through the real preBindObject, rebuild through podEventHandler
+        {"pkg": "pkg/scheduler/plugins/nodenumaresource", "test": "TestVerifC19Numa", "family": "NumaCpu", "uses_script": False,
+         "trace": {"module": "NumaCpuTrace", "cfg": "Trace.cfg"}},
     ],
     "trace": {"module": "CodecTrace", "cfg": "Trace_Codec.cfg"},
     "signature": sig,
